@@ -56,5 +56,5 @@ def explore(cases, depth=3, shards=8):
         d = json.loads(m[0])
         for b in d["bad"]:
             words = [bashdrv.uncp(w) for w in d["hist"]] + [bashdrv.uncp(w) for w in b["words"]]
-            pred.setdefault(d["id"], []).append((words, bashdrv.uncp(b["prefix"])))
+            pred.setdefault(d["id"], []).append((words, bashdrv.uncp(b["prefix"]), b.get("tag", "")))
     return res, pred
